@@ -108,6 +108,8 @@ func c14SemanticErrors() map[string]string {
 		"bad-date":             base + "2020-13-45 open Assets:X\n",
 		"zero-price":           base + "2020-01-01 price USD 0 CHF\n2020-01-02 \"t\"\nAssets:Bank Expenses:Food 1 USD\n\n",
 		"inverted-accrual":     base + "@accrue monthly 2020-03-31 2020-01-01 Assets:Bank\n2020-01-02 \"t\"\nAssets:Bank Expenses:Food 1 CHF\n\n",
+		"year-one-accrual":     base + "@accrue monthly 0001-01-01 0001-03-01 Assets:Bank\n2020-01-02 \"t\"\nAssets:Bank Expenses:Food 1 CHF\n\n",
+		"year-one-date":        base + "0001-01-01 \"t\"\nAssets:Bank Expenses:Food 1 CHF\n\n",
 		"one-day-accrual":      base + "@accrue daily 2020-01-01 2020-01-01 Assets:Bank\n2020-01-02 \"t\"\nAssets:Bank Expenses:Food 1 CHF\n\n",
 		"bad-commodity":        base + "2020-01-02 \"t\"\nAssets:Bank Expenses:Food 1 C_H\n\n",
 		"huge-number":          base + "2020-01-02 \"t\"\nAssets:Bank Expenses:Food " + strings.Repeat("9", 400) + "." + strings.Repeat("9", 400) + " CHF\n\n",
